@@ -56,10 +56,10 @@ func gen(g *mon.Gen) {
 				}
 			}
 		}
-		for n := 1; n <= 1968; n += g.Pick(9, 1) {
+		for n := 1; n <= 1968; n += g.Pick(3, 1) {
 			g.Emit(&Case{Kind: "readback", Framing: fr, Len: n, Start: []int{0, 65536 - n, rng.Intn(65536 - n)}[n%3], Seed: rng.Int63()})
 		}
-		for i := 0; i < g.Pick(300, 100000); i++ {
+		for i := 0; i < g.Pick(2000, 100000); i++ {
 			g.Emit(&Case{Kind: "extract", FC: uint8(1 + rng.Intn(2)), Framing: fr, Seed: rng.Int63()})
 		}
 	}
